@@ -162,6 +162,23 @@ def run_case(a):
                 continue
             for (f, kind) in diff_kind(base, got):
                 viol.append(("C13 path-spelling-changes-%s file=%s" % (kind, f), "cwd %s, -p %s -o %s: %s differs from the run with absolute paths (%s)" % (cwd_rel, sp_src, sp_out, f, kind), wit({"spelling": [cwd_rel, sp_src, sp_out]})))
+        # (2c) what the output directory held before is not an input: a directory with the (longer) files of an earlier project state,
+        #      with and without that state's cache record, ends up like a fresh one
+        for k, keep_cache in enumerate((False, True)):
+            od = _os.path.join(root, "out_prev%d" % k)
+            _os.makedirs(od, exist_ok=True)
+            for f, t in base.items():
+                if f.endswith(".ts"):
+                    open(_os.path.join(od, f), "w").write(t + "\n// ---- what an earlier, larger state of the project had here\n" + t.replace("export ", "export /* earlier */ ") * 2)
+            if keep_cache:
+                open(_os.path.join(od, ".typecache"), "w").write('{"version":1,"commands_hash":"0","structs_hash":"0","config_hash":"0","events_hash":"0"}')
+            r = common.run([cli, "tauri-typegen", "generate", "-p", _os.path.join(root, "src"), "-o", od, "-v", mode], cwd=root, hash_seed=hs0 + 7 + k)
+            stats["runs"] += 1
+            if r.timed_out or r.rc != 0:
+                continue
+            for (f, kind) in diff_kind(base, common.read_outputs(od)):
+                viol.append(("C13 earlier-content-of-the-output-directory-changes-%s file=%s" % (kind, f), "same sources and settings, output directory holding longer files of the same names%s: %s differs from the run into a fresh directory (%s)" % (
+                    " and a stale cache record" if keep_cache else "", f, kind), wit({"output_directory": "pre-filled", "stale_cache": keep_cache})))
         # (2b) the other two entry paths: the library call generate_from_config and the build-script path are runs on the same
         #      sources and configuration as well
         if drv:
